@@ -194,6 +194,8 @@ func c29CheckGet(got []rbOutTrack, want []c29GetWant, spec *rbSpec, s time.Time,
 		for k := headStart; k < len(w.OptHead); k++ {
 			visible = append(visible, w.OptHead[k])
 		}
+		// samples of the band may have been treated as lead-in: their timestamps are not constrained
+		firstVisible += len(visible)
 		visible = append(visible, w.Must...)
 		for _, r := range visible {
 			if pos >= len(ids) || ids[pos] != r.Fed.Idx {
